@@ -89,7 +89,7 @@ func init() {
 			"pre-states contain no empty account at the RIPEMD-160 precompile address: core/state deliberately keeps a reverted touch of that address (the main-net block 2675119 exception); a failed creation may keep the creator's nonce increment or not (both accepted)",
 			"block gas limit = params.GenesisGasLimit = TargetGasLimit = 4712388; the depth limit is only reachable with far more gas under the 63/64 rule, so recursion templates also run with 2^40 and 2^46 gas",
 			"the static-sandbox clause is decided only where the chain config enables Byzantium; in the main-net HF5..HF7 window STATICCALL exists without write protection and writes there are only counted (prebyzantium_static_frame_wrote)",
-			"wall-clock is used only by a 120 s per-execution watchdog and a 40M-step cap, both reported as inconclusive",
+			"wall-clock is used only by a 30 min per-execution watchdog; it and the deterministic 40M-step cap are reported as inconclusive, never as a verdict",
 		},
 	})
 }
@@ -235,7 +235,7 @@ func (w *worker) exec(sp *spec, quiet bool) (out outcome) {
 		rerr     error
 		pmsg     string
 		pstack   string
-		watchdog = time.AfterFunc(120*time.Second, func() { atomic.StoreInt32(&o.watchdog, 1); evm.Cancel() })
+		watchdog = time.AfterFunc(30*time.Minute, func() { atomic.StoreInt32(&o.watchdog, 1); evm.Cancel() })
 	)
 	func() {
 		defer func() {
